@@ -15,6 +15,7 @@ from statham.schema.elements import (
     String,
 )
 from statham.schema.elements.meta import ObjectMeta
+from statham.schema.helpers import remove_duplicates
 from statham.schema.property import _Property
 from statham.serializers.orderer import get_object_classes
 
@@ -76,11 +77,14 @@ def _serialize_element(
     if not schema.get("properties", True):
         del schema["properties"]
     if "properties" in schema:
-        schema["required"] = [
-            prop.source or name
-            for name, prop in schema["properties"].items()
-            if prop.required
-        ]
+        schema["required"] = remove_duplicates(
+            list(schema.get("required", []))
+            + [
+                prop.source or name
+                for name, prop in schema["properties"].items()
+                if prop.required
+            ]
+        )
     if not schema.get("required", True):
         del schema["required"]
     if isinstance(element, CompositionElement):
